@@ -39,8 +39,10 @@ OPEN_STATEMENTS = [
     '1e-8, and equality of the term dictionaries (not only of the operators) with jordan_wigner / bravyi_kitaev (covered by the transform '
     'stream: Model correspondence + Spec oracle on every encoded domain state + term-for-term comparison with jordan_wigner / '
     'bravyi_kitaev)',
-    'Shaped for the built-in constructors other than through init_shaped: covered by the codes stream only (both constructors '
-    'of BinaryPolynomial are proved: string_constructor_sound, tuple_constructor_sound)',
+    'Shaped and the decoder structure are proved for every constructor and every code expression the driver builds '
+    '(constructors_shaped, code_expression_shaped_struct); ValidOn for a whole code expression follows by composing '
+    'concat_valid / append_valid / int_mul_valid with the per-constructor validity theorems (not stated as one induction over '
+    'expressions because the domain is expression dependent; the codes stream checks it on the computed domains)',
 ]
 TRUSTED = [
     'C09: string tokenisation of BinaryPolynomial(str) (str.split / isdigit / int) is done by the harness '
